@@ -30,6 +30,12 @@
      mutexstring <path>                   -> <hex of Mutex.String()>
      spec <call> <arg> <reg>              -> <outcome> <new reg>   (call_spec: the sequential
                                              specification used by the linearisability theorem)
+     hrun <exists> <event>..              -> one "<answer>:<probes>:<descriptors>" per event (Handles.v: htrace)
+        the histories of ONE process over File / Mutex / unlock-function objects; <exists> = one 0|1 per
+        inode (does the file exist at the start); event = o:<ino>:<flags> (OpenFile) | c:<h> (File.Close
+        on handle h) | d:<h> (drop the reference) | gc | mn:<ino> (MutexAt) | ml:<m> (Lock) | mu:<h> (the
+        unlock function); answer = OK | ERR | SKIP | PANIC | STUCK; probes = per inode f|s|x (what
+        another process's LOCK_EX|LOCK_NB / LOCK_SH|LOCK_NB finds); descriptors = per inode, comma separated
    <outcome> = ok | err | data:<hex> | blocked
    <op> = open:<flags>=<r> | flock:<how>=<r> | ftruncate:<n>=<r> | readall=<r> |
           pwrite:<off>:<hex>=<r> | write:<hex>=<r> | close=<r>        (ghost marks are not shown)
@@ -254,6 +260,24 @@ let () = serve (function
                  Hashtbl.replace tab i (drop c (get i)); go (idx + 1) grants rest
              | _ -> "ERR bad token " ^ tok) in
       go 0 0 toks
+  | "hrun" :: exists :: evs ->
+      let n = String.length exists in
+      let files i = let k = int_of_nat i in if k < n && exists.[k] = '1' then Some [] else None in
+      let ev tok = match String.split_on_char ':' tok with
+        | ["o"; i; fl] -> HOpen (nat_of_int (int_of_string i), n_of_int (int_of_string fl))
+        | ["c"; h] -> HClose (nat_of_int (int_of_string h))
+        | ["d"; h] -> HDrop (nat_of_int (int_of_string h))
+        | ["gc"] -> HGC
+        | ["mn"; i] -> HMNew (nat_of_int (int_of_string i))
+        | ["ml"; m] -> HMLock (nat_of_int (int_of_string m))
+        | ["mu"; h] -> HMUnlock (nat_of_int (int_of_string h))
+        | _ -> failwith ("bad event " ^ tok) in
+      let rec inodes k = if k >= n then [] else nat_of_int k :: inodes (k + 1) in
+      let tr = htrace (hinit files) (List.map ev evs) (inodes 0) in
+      String.concat " " (List.map (fun (r, obs) ->
+        (match r with HOk -> "OK" | HErr -> "ERR" | HNone -> "SKIP" | HPanicked -> "PANIC" | HStuck -> "STUCK") ^ ":" ^
+        String.concat "" (List.map (fun (p, _) -> match p with PFree -> "f" | PShared -> "s" | PExcl -> "x") obs) ^ ":" ^
+        String.concat "," (List.map (fun (_, k) -> string_of_int (int_of_nat k)) obs)) tr)
   | ["mutexfacts"] ->
       (match mutex_lock [] with MPanic m -> "lockpanic " ^ hex_of_bytes m | MRun _ -> "lockruns -") ^ " " ^
       (match mutex_at [] with Inr m -> "atpanic " ^ hex_of_bytes m | Inl _ -> "atok -")
